@@ -214,10 +214,18 @@ def program_case(rng, tier, idx):
         if k is None:
             k = r.choice([1, 2, 2, 3])
         chosen = r.sample(pool, min(k, len(pool)))
+        args = arg if isinstance(arg, list) else [arg]
         out = []
         for f in chosen:
-            lines.append(f"{names[f]} = {f}({arg})")
+            lines.append(f"{names[f]} = {f}({r.choice(args)})")
             out.append((names[f], f))
+        if base == "x" and shape in ("plain", "ref", "two-draws") and r.random() < 0.25:
+            # a second variable holding the same function of the same draw (powers must add up)
+            f = r.choice(chosen)
+            dup = {"Sin": "t", "Cos": "u", "Exp": "v"}[f] + base
+            lines.append(f"{dup} = {f}({r.choice(args)})")
+            out.append((dup, f))
+            feats.add("dup-func")
         return out
 
     # can the family take Exp safely (moderate magnitudes / existing)?
@@ -241,11 +249,19 @@ def program_case(rng, tier, idx):
     if shape in ("cond-keep", "cond-else"):
         body.append(f"b = Bernoulli({fs(r.choice([F(1, 2), F(1, 3), F(3, 4)]))})")
     draw_line = f"x = {dist_text(fam, ps)}"
+    init_funcs_pending = False
     if shape == "init-func":
         init.append(draw_line)
         funcs_x = add_funcs("x", "x", init, allow_exp=use_exp)
         # the loop only consumes them (x, sx, ... stay constant random variables)
     else:
+        if r.random() < 0.12 and shape in ("plain", "ref", "two-draws", "const"):
+            # drawn (with other parameters) and transformed in the initial block as well
+            ps0 = pick_params(r, fam, tier, for_exp=True, program=True)
+            if mgf_bound(fam, ps0) is None or mgf_bound(fam, ps0) > 2:
+                init.append(f"x = {dist_text(fam, ps0)}")
+                init_funcs_pending = True
+                feats.add("init-and-loop")
         body.append(draw_line)
         arg = "x"
         if shape == "ref" or (shape not in ("simult",) and r.random() < 0.15):
@@ -256,6 +272,9 @@ def program_case(rng, tier, idx):
                 body.append("q = r")
                 arg = "q"
                 feats.add("ref-chain")
+            if r.random() < 0.5:
+                arg = ["x", arg]      # some functions take the draw, others the reference
+                feats.add("ref-and-direct")
         lines = []
         if shape == "mix":
             funcs_x = add_funcs(arg, "x", lines, allow_exp=True, k=3)
@@ -289,6 +308,9 @@ def program_case(rng, tier, idx):
             rs = [l.split(" = ")[1] for l in lines[:2]]
             lines = [f"{vs[0]}, {vs[1]} = {rs[0]}, {rs[1]}"] + lines[2:]
         body += lines
+        if init_funcs_pending:
+            for v, f in funcs_x:
+                init.append(f"{v} = {f}(x)")
     if shape == "pre-use":
         v = funcs_x[0][0]
         pre.append(f"y = y + {coef_mul(r.choice(COEFS), v)}")
@@ -345,12 +367,16 @@ def program_case(rng, tier, idx):
         if force:
             for v in force:
                 m[v] = m.get(v, 0) + 1
-        while sum(m.values()) < deg:
+        tries = 0
+        while sum(m.values()) < deg and tries < 60:
+            tries += 1
             v = r.choice(pool)
             if v in exp_x and m.get(v, 0) >= (1 if shape != "divergent" else 2):
-                if len(pool) == 1:
-                    break
                 continue
+            if shape != "mix":
+                # keep Sin/Cos and Exp of the same draw apart (their product is the separately generated 'mix' shape)
+                if (v in exp_x and any(t in m for t in trig_x)) or (v in trig_x and any(t in m for t in exp_x)):
+                    continue
             m[v] = m.get(v, 0) + 1
         return m
 
@@ -373,7 +399,9 @@ def program_case(rng, tier, idx):
         updates[-1] += f" + {coef_mul(r.choice(COEFS), mono_text(m2))}"
     if "w" in accs:
         m3 = rand_mono(2)
-        form = r.choice(["w + M", "w + y*V", "(2/3)*w + M", "w + M - 1"])
+        form = r.choice(["w + M", "w + y*V", "(2/3)*w + M", "w + M - 1", "w + M {1/3} w - 1"])
+        if "{" in form:
+            feats.add("prob-choice")
         if form == "w + y*V":
             v = r.choice(trig_x or fx or ["x"])
             updates.append(f"w = w + {coef_mul(r.choice(COEFS[:5]), 'y*' + v)}")
@@ -398,7 +426,7 @@ def program_case(rng, tier, idx):
     for v in fx[:2]:
         cands.append({v: r.choice([1, 2])})
         cands.append({"x": 1, v: 1})
-    if len(fx) >= 2:
+    if len(fx) >= 2 and (shape == "mix" or (fx[0] in exp_x) == (fx[1] in exp_x)):
         cands.append({fx[0]: 1, fx[1]: 1})
     if fz:
         cands.append({fz[0]: 1, fx[0]: 1})
